@@ -80,9 +80,16 @@ func callHandle(f hackpadfs.File, o hOp) (r hResult) {
 			r.data = buf[:r.n]
 		}
 	case "Write":
-		r.n, r.err = hackpadfs.WriteFile(f, o.Data)
+		buf := append([]byte(nil), o.Data...)
+		if o.Data == nil {
+			buf = nil
+		}
+		r.n, r.err = hackpadfs.WriteFile(f, buf)
+		scribble(buf)
 	case "WriteAt":
-		r.n, r.err = hackpadfs.WriteAtFile(f, o.Data, o.Off)
+		buf := append([]byte(nil), o.Data...)
+		r.n, r.err = hackpadfs.WriteAtFile(f, buf, o.Off)
+		scribble(buf)
 	case "Seek":
 		r.off, r.err = hackpadfs.SeekFile(f, o.Off, o.Whence)
 	case "Truncate":
@@ -210,6 +217,9 @@ func (w *handleWorld) do(o hOp) {
 			if got.n != 0 {
 				fail("data", "bytes", "a zero-length read returned n != 0")
 			}
+			if wc == "fail" && gc != "fail" {
+				fail("outcome", "zero-length:os=fail:sut="+gc, "os refuses this zero-length read, the handle accepts it")
+			}
 			break
 		}
 		if (gc == "fail") != (wc == "fail") {
@@ -243,9 +253,14 @@ func (w *handleWorld) do(o hOp) {
 		}
 	case "Write", "WriteAt":
 		if len(o.Data) == 0 {
-			// a zero-length write transfers nothing: success and refusal are both accepted
 			if got.n != 0 {
 				fail("data", "n", "a zero-length write returned n != 0")
+			}
+			// os.File.WriteAt with nothing to write returns nil even on a read-only handle (its loop never reaches
+			// the system call); a refusal there is accepted. The other direction is not: where os refuses an empty
+			// write (negative offset, WriteAt on O_APPEND, a closed or read-only Write), success is a skipped check
+			if want.err != nil && got.err == nil {
+				fail("outcome", "zero-length:os=fail:sut=ok", "os refuses this zero-length write, the handle accepts it")
 			}
 			break
 		}
